@@ -13,7 +13,7 @@ use crate::rng::Rng;
 use serde_json::{json, Value};
 use std::io::{BufRead, BufReader, Write};
 use std::process::{Command, Stdio};
-use std::time::{Duration, Instant};
+use std::time::Duration;
 use syntax::TokenKind;
 
 const PIECES: &[&str] = &[
@@ -200,8 +200,23 @@ fn tok_name(k: TokenKind) -> String {
 }
 
 /// child: parse inputs[start..end], one `B i` line before and one `E i <json>` after each
-pub fn child(tier: &str, seed: u64, widen: bool, start: usize, end: usize) {
-    let (inputs, _) = gen_inputs(tier, seed, widen);
+fn inputs_path() -> std::path::PathBuf {
+    let base = std::env::var("CVH_SCRATCH").unwrap_or_else(|_| "/verif/.build/e2e".into());
+    std::path::PathBuf::from(base)
+}
+
+fn load_inputs(path: &str) -> Vec<(String, bool)> {
+    let text = std::fs::read_to_string(path).expect("inputs file");
+    text.lines()
+        .map(|l| {
+            let v: Value = serde_json::from_str(l).expect("input line");
+            (v[0].as_str().unwrap().to_string(), v[1].as_bool().unwrap())
+        })
+        .collect()
+}
+
+pub fn child(path: &str, start: usize, end: usize) {
+    let inputs = load_inputs(path);
     let stdout = std::io::stdout();
     for i in start..end.min(inputs.len()) {
         {
@@ -210,9 +225,10 @@ pub fn child(tier: &str, seed: u64, widen: bool, start: usize, end: usize) {
             o.flush().unwrap();
         }
         let (text, repl) = &inputs[i];
-        let t0 = Instant::now();
+        // CPU time of this thread, so that a loaded machine does not look like a slow parser
+        let t0 = thread_cpu_micros();
         let res = std::panic::catch_unwind(|| check_one(text, *repl));
-        let micros = t0.elapsed().as_micros() as u64;
+        let micros = thread_cpu_micros().saturating_sub(t0);
         let v = match res {
             Ok(mut v) => {
                 v["micros"] = json!(micros);
@@ -224,6 +240,14 @@ pub fn child(tier: &str, seed: u64, widen: bool, start: usize, end: usize) {
         writeln!(o, "E {i} {v}").unwrap();
         o.flush().unwrap();
     }
+}
+
+fn thread_cpu_micros() -> u64 {
+    let mut ts = libc::timespec { tv_sec: 0, tv_nsec: 0 };
+    unsafe {
+        libc::clock_gettime(libc::CLOCK_THREAD_CPUTIME_ID, &mut ts);
+    }
+    ts.tv_sec as u64 * 1_000_000 + ts.tv_nsec as u64 / 1000
 }
 
 fn check_one(text: &str, repl: bool) -> Value {
@@ -339,16 +363,13 @@ struct Child {
     rx: std::sync::mpsc::Receiver<String>,
 }
 
-fn spawn_child(tier: &str, seed: u64, widen: bool, start: usize, end: usize) -> Child {
+fn spawn_child(path: &str, start: usize, end: usize) -> Child {
     let mut cmd = Command::new(std::env::current_exe().unwrap());
-    cmd.args(["C23", "--tier", tier, "--seed", &seed.to_string()])
-        .env("CVH_C23_CHILD", format!("{start}:{end}"))
+    cmd.args(["C23"])
+        .env("CVH_C23_CHILD", format!("{start}:{end}:{path}"))
         .stdin(Stdio::null())
         .stdout(Stdio::piped())
         .stderr(Stdio::null());
-    if widen {
-        cmd.arg("--widen");
-    }
     let mut proc = cmd.spawn().expect("spawn C23 child");
     let out = proc.stdout.take().unwrap();
     let (tx, rx) = std::sync::mpsc::channel();
@@ -364,8 +385,9 @@ fn spawn_child(tier: &str, seed: u64, widen: bool, start: usize, end: usize) -> 
 
 pub fn run(tier: &str, seed: u64, widen: bool) -> Report {
     if let Ok(r) = std::env::var("CVH_C23_CHILD") {
-        let (a, b) = r.split_once(':').unwrap();
-        child(tier, seed, widen, a.parse().unwrap(), b.parse().unwrap());
+        let mut it = r.splitn(3, ':');
+        let (a, b, path) = (it.next().unwrap(), it.next().unwrap(), it.next().unwrap());
+        child(path, a.parse().unwrap(), b.parse().unwrap());
         std::process::exit(0);
     }
     let mut rep = Report::new(
@@ -376,6 +398,16 @@ pub fn run(tier: &str, seed: u64, widen: bool) -> Report {
     let (inputs, n_exh) = gen_inputs(tier, seed, widen);
     rep.exhaustive = n_exh > 0;
     let total = inputs.len();
+    let dir = inputs_path();
+    let _ = std::fs::create_dir_all(&dir);
+    let path = dir.join(format!("c23_inputs_{}.jsonl", std::process::id()));
+    {
+        let mut f = std::io::BufWriter::new(std::fs::File::create(&path).expect("inputs file"));
+        for (t, r) in &inputs {
+            writeln!(f, "{}", json!([t, r])).unwrap();
+        }
+    }
+    let path_s = path.to_string_lossy().to_string();
     // parallel children over slices
     let jobs = 12usize;
     let chunk = (total + jobs - 1) / jobs;
@@ -385,14 +417,19 @@ pub fn run(tier: &str, seed: u64, widen: bool) -> Report {
         if s >= e {
             continue;
         }
-        let tier = tier.to_string();
-        handles.push(std::thread::spawn(move || supervise(&tier, seed, widen, s, e)));
+        let p = path_s.clone();
+        handles.push(std::thread::spawn(move || supervise(&p, s, e)));
     }
     let mut results: Vec<(usize, Value)> = vec![];
     for h in handles {
         results.extend(h.join().unwrap());
     }
     results.sort_by_key(|r| r.0);
+    let _ = std::fs::remove_file(&path);
+    if results.len() != total {
+        rep.notes.push(format!("{} of {} inputs produced no result (child start-up failure)", total - results.len(), total));
+        rep.oracle_fail("harness-lost-inputs", json!({"missing": total - results.len()}), json!("no result"), json!("a result per input"), "the supervisor lost inputs");
+    }
     // model requests in one batch
     let mut reqs = vec![];
     let mut req_of = vec![];
@@ -433,10 +470,10 @@ pub fn run(tier: &str, seed: u64, widen: bool) -> Report {
         }
         rep.hit(if v["errors"].as_u64().unwrap_or(0) > 0 { "parsed-with-errors" } else { "parsed-clean" });
         rep.traces_validated += 1;
-        // linear-time budget: 0.5 s + 100 µs per byte (wall time on a loaded machine, debug build)
+        // linear-time budget on the parsing thread's CPU time: 0.3 s + 100 µs per byte (opt-level 1, debug assertions)
         let micros = v["micros"].as_u64().unwrap_or(0);
         let bytes = v["bytes"].as_u64().unwrap_or(0);
-        if micros > 500_000 + 100 * bytes {
+        if micros > 300_000 + 100 * bytes {
             rep.oracle_fail("parse-time-superlinear", input.clone(), json!(format!("{micros} us for {bytes} bytes")), json!("roughly linear"), "parse time budget exceeded");
         }
         for p in v["problems"].as_array().cloned().unwrap_or_default() {
@@ -457,14 +494,15 @@ pub fn run(tier: &str, seed: u64, widen: bool) -> Report {
     rep
 }
 
-fn supervise(tier: &str, seed: u64, widen: bool, start: usize, end: usize) -> Vec<(usize, Value)> {
+fn supervise(path: &str, start: usize, end: usize) -> Vec<(usize, Value)> {
     let mut out = vec![];
     let mut next = start;
+    let mut idle_restarts = 0;
     while next < end {
-        let mut child = spawn_child(tier, seed, widen, next, end);
+        let mut child = spawn_child(path, next, end);
         let mut current: Option<usize> = None;
         loop {
-            match child.rx.recv_timeout(Duration::from_secs(10)) {
+            match child.rx.recv_timeout(Duration::from_secs(20)) {
                 Ok(line) => {
                     if let Some(i) = line.strip_prefix("B ") {
                         current = i.trim().parse().ok();
@@ -484,7 +522,11 @@ fn supervise(tier: &str, seed: u64, widen: bool, start: usize, end: usize) -> Ve
                         out.push((i, json!({"hang": true})));
                         next = i + 1;
                     } else {
-                        next = end;
+                        // the child produced nothing at all (slow start on a loaded machine): retry
+                        idle_restarts += 1;
+                        if idle_restarts > 5 {
+                            next = end;
+                        }
                     }
                     break;
                 }
@@ -494,8 +536,11 @@ fn supervise(tier: &str, seed: u64, widen: bool, start: usize, end: usize) -> Ve
                         // died while parsing i (abort / stack overflow)
                         out.push((i, json!({"crashed": true})));
                         next = i + 1;
-                    } else {
-                        next = end;
+                    } else if next < end {
+                        idle_restarts += 1;
+                        if idle_restarts > 5 {
+                            next = end;
+                        }
                     }
                     break;
                 }
